@@ -40,8 +40,14 @@ impl KsSpec {
     pub fn model(&self) -> KsOutcome {
         let dir = models::dir_of(self.dir.as_deref().unwrap_or("")).expect("generator emits valid directions only");
         let pat = self.pat.as_deref().map(|p| models::key_pat(p).expect("pattern from the family"));
-        let lines: Vec<&str> = self.lines.iter().map(String::as_str).collect();
-        models::keep_sorted(&lines, dir, pat, self.numeric())
+        // the content starts right after the start-tag comment: its first line is the (empty) rest of the tag's
+        // line, which is a key when the pattern can match the empty string
+        let mut lines: Vec<&str> = vec![""];
+        lines.extend(self.lines.iter().map(String::as_str));
+        match models::keep_sorted(&lines, dir, pat, self.numeric()) {
+            KsOutcome::OutOfOrder(i, sp) => KsOutcome::OutOfOrder(i - 1, sp), // index into the written lines
+            o => o,
+        }
     }
 }
 
@@ -122,6 +128,9 @@ pub fn enumerated(max_len: usize, batch: usize) -> Vec<KsBatch> {
         (Some("id:(?P<value>[0-9]+)"), Some("numeric"), IDS),
         (Some("id:[0-9]+"), None, IDS),
         (Some("^k(?P<value>[a-z]+)"), Some("lexicographic"), KS),
+        // patterns that can match the empty string: a matching line with an EMPTY key is still a key
+        (Some("^k(?P<value>[a-z]*)"), None, KS),
+        (Some("^[a-z]*"), None, LEX),
     ];
     let mut specs = vec![];
     for len_cap in 0..=max_len {
@@ -229,7 +238,7 @@ pub fn random_batch() -> BoxedStrategy<KsBatch> {
 }
 
 pub fn run(run: &mut Run) {
-    run.rule = "enumerated: every line sequence of length 0..k (k=4 quick, 5 thorough) over per-configuration alphabets (ordered/equal/prefix-related/indented/blank/numeric-looking lines) x 6 direction spellings x 7 (pattern, format) configurations, batched into one file per 400 blocks and run through the real CLI; random: blocks of 6..120 lines (sorted then perturbed by 0..3 swaps; Unicode words; nested block tag lines as keys; numeric with/without pattern). Non-trivial block = at least 2 keys and (an equal or prefix-related adjacent pair, or a skipped line); distinct by (batch, block).".into();
+    run.rule = "enumerated: every line sequence of length 0..k (k=4 quick, 5 thorough) over per-configuration alphabets (ordered/equal/prefix-related/indented/blank/numeric-looking lines) x 6 direction spellings x 9 (pattern, format) configurations (two of them with patterns that can match the empty string, so that matching lines with an empty key occur), batched into one file per 400 blocks and run through the real CLI; random: blocks of 6..120 lines (sorted then perturbed by 0..3 swaps; Unicode words; nested block tag lines as keys; numeric with/without pattern). Non-trivial block = at least 2 keys and (an equal or prefix-related adjacent pair, or a skipped line); distinct by (batch, block).".into();
     run.assumptions = vec![
         "content lines are shell/ruby words, which tree-sitter parses without touching the tag comments (block discovery itself is C03)".into(),
         "numeric keys are plain finite decimals; regexes come from a fixed family with hand-written extractors".into(),
